@@ -83,6 +83,21 @@ Theorem take_prefix_of_collect : forall n stages parts,
   exists rest, job_log ACollect stages parts = take_log n stages parts ++ rest.
 Proof. exact take_log_prefix. Qed.
 
+(* Laziness at the granularity of single calls.  [global_trace] is everything a full pass does, in order (task
+   creation of partition 0, its generator chain, task creation of partition 1, ...), calls [Ev] and yields [Out]
+   interleaved.  take(n) executes a prefix [pre] of it and then either nothing is left (fewer than n elements exist:
+   everything had to be evaluated) or n elements were returned and the last thing that happened is the yield of the
+   n-th one -- not a single further call, in this or in any later partition. *)
+Theorem take_stops_at_nth_element : forall n stages parts,
+  exists pre post, global_trace stages parts = pre ++ post /\
+    take_log n stages parts = events pre /\ take_result n stages parts = outs pre /\
+    (post = [] \/ (length (take_result n stages parts) = n /\ (n = 0%nat \/ exists pre' a, pre = pre' ++ [Out a]))).
+Proof. exact take_stops_at_nth. Qed.
+Theorem global_trace_is_a_full_pass : forall stages parts,
+  events (global_trace stages parts) = job_log ACollect stages parts /\
+  outs (global_trace stages parts) = concat (map (sem_pipe stages) parts).
+Proof. exact global_trace_full_pass. Qed.
+
 (* no element is evaluated twice by take(n) (an event identifies stage, partition and element) *)
 Theorem take_no_dup : forall n stages parts, NoDup (take_log n stages parts).
 Proof. exact take_log_NoDup. Qed.
